@@ -1,6 +1,7 @@
 package main
 
 import (
+	"sort"
 	"fmt"
 	"go/constant"
 	"go/token"
@@ -228,6 +229,19 @@ func (u *Unit) allocObject(st *State, t types.Type, comment string) Value {
 	p := PtrV{Base: r, Obj: t}
 	if len(leaves(t)) > 0 {
 		m.StoreVal(st, p, m.ZeroValue(t))
+	}
+	// the ghost abstraction (hfn) of a freshly allocated, zero-valued object is 0: a new big.Int is 0, a new
+	// bytes.Buffer has no data, a new key object holds no point
+	var hnames []string
+	for name, h := range u.eng.specs.HFns {
+		if h.Ret == SInt {
+			hnames = append(hnames, name)
+		}
+	}
+	sort.Strings(hnames)
+	for _, name := range hnames {
+		comp := m.comp(st, "G|"+name, ArrSort(SInt, SInt))
+		u.c.Assume(Eq(Select(comp, r), IntLit(0)))
 	}
 	return p
 }
